@@ -272,6 +272,20 @@ func convSetup() {
 	textwire.RegisterFloatFunc("half", func(f float64, args ...any) float64 { return f / 2 })
 	textwire.RegisterBoolFunc("neg", func(b bool, args ...any) bool { return !b })
 	textwire.RegisterArrFunc("unsupported", func(a []any, args ...any) []any { return []any{1, make(chan int)} })
+	// a function that changes the slice it is given: the template's array is not that slice
+	textwire.RegisterArrFunc("scribble", func(a []any, args ...any) []any {
+		for i := range a {
+			a[i] = "scribbled"
+		}
+		for _, x := range args {
+			if s, ok := x.([]any); ok {
+				for i := range s {
+					s[i] = "scribbled"
+				}
+			}
+		}
+		return []any{len(a)}
+	})
 }
 
 func mixedResult() []any {
@@ -310,6 +324,16 @@ func convFamily(raw json.RawMessage) Result {
 				res.Msg = fmt.Sprintf("%s gave (%q, %v); the same Go value passed as data prints (%q, %v)", ck.src, got, err, want, werr)
 				return res
 			}
+		}
+		// what a function does to the slices it receives stays with the function: the template's arrays keep their content,
+		// and the next function receives that content
+		convLog.recv, convLog.args = "<not called>", nil
+		out, err := textwire.EvaluateString("{{ r = [3, 1, 2] }}{{ q = [[7], 8] }}{{ r.scribble(q, q[0]) }}|{{ r }}|{{ q }}|{{ r.rec(q) }}", nil)
+		if err != nil || out != "3|3, 1, 2|7, 8|ok" || convLog.recv != "[]any{int64(3),int64(1),int64(2)}" ||
+			len(convLog.args) != 1 || convLog.args[0] != "[]any{[]any{int64(7)},int64(8)}" {
+			res.Status, res.Kind = "viol", "argument-conversion"
+			res.Msg = fmt.Sprintf("after a custom function wrote into the slices it had received: output %q (err %v), the next function received %s %v", out, err, convLog.recv, convLog.args)
+			return res
 		}
 		// a result that could not be passed as data either must be an error, as it is for data
 		if out, err := textwire.EvaluateString("{{ a.unsupported() }}", map[string]any{"a": []any{}}); err == nil {
